@@ -206,7 +206,7 @@ def kernel_max(bits, signed, quick):
 def conv_unit(ctx, bits, signed, maxes, loopmaxes):
     T = (ST if signed else UT)[bits]
     tn = tname(bits, signed)
-    L = ['// generated wrapper TU (C15): conversion kernels for %s' % T, '#include "c15_common.hpp"']
+    L = ['// generated wrapper TU (C15): conversion kernels for %s' % T, '#include "c15_kernels.hpp"']
     sig = '( const char* b, unsigned long n, unsigned long r, unsigned long* o )'
     for m in maxes:
         L.append('C15_EXPORT void w_step_%s_%d( unsigned long r, unsigned long d, unsigned long* o ) { c15::step< %s, %s >( r, d, o ); }' % (tn, m, T, cxxlit(m, bits, signed)))
